@@ -158,10 +158,15 @@ def supported (tm : TypeMap) : Sp → Bool
 
 /-! ### field level -/
 
-def DefaultSp.value : DefaultSp → Option PyVal
+/-- what a default means: (the value that must be valid for the field, what the field's default is).
+    A factory is the default itself - documented to be evaluated for every instance - and its product must
+    be valid. -/
+def DefaultSp.value : DefaultSp → Option (PyVal × PyVal)
   | .none => Option.none
-  | .eq v _ => some v
-  | .kw v _ => some v
+  | .eq v _ => some (v, v)
+  | .kw v _ => some (v, v)
+  | .eqF p _ => some (p, factoryTag)
+  | .kwF p _ => some (p, factoryTag)
 
 /-- the field is optional: listed in `_optional`, or annotated with a typing expression whose
     meaning admits `None` (`Optional[T]`, `Union[T, None]`) -/
@@ -173,7 +178,8 @@ def effOptional (fs : FieldSp) : Bool :=
 def fieldMeaning (O : Oracles) (fs : FieldSp) : R FieldRes :=
   match fs.dflt.value with
   | Option.none => .ok (.field (denote fs.ty) (!effOptional fs) Option.none)
-  | some v => bindE (tryDefault O (denote fs.ty) v) fun _ => .ok (eqResult (denote fs.ty) (effOptional fs) v)
+  | some (v, stored) =>
+    bindE (tryDefault O (denote fs.ty) v) fun _ => .ok (eqResult (denote fs.ty) (effOptional fs) stored)
 
 /-- the same field in two spellings -/
 structure FieldSame (a b : FieldSp) : Prop where
@@ -181,6 +187,13 @@ structure FieldSame (a b : FieldSp) : Prop where
   ty : SameMeaning a.ty b.ty
   dflt : a.dflt.value = b.dflt.value
   opt : effOptional a = effOptional b
+
+/-- the annotation converts to a Field CLASS (`int`, `list`, `Any` …): the one place where a factory given
+    with `=` is evaluated once, at class definition (known finding `default-factory-once`) -/
+def onceSp (tm : TypeMap) (ty : Sp) : Bool :=
+  match ev tm ty with
+  | .ok o => !isFieldObj o && gtliGivesClass tm o
+  | .error _ => false
 
 def defaultOk (O : Oracles) (d : FieldDecl) (v : PyVal) : Bool :=
   match validate O d v with
@@ -196,7 +209,9 @@ def fieldSupported (O : Oracles) (tm : TypeMap) (_future : Bool) (fs : FieldSp) 
   && (match fs.dflt with
       | .none => true
       | .eq v _ => eqDefault v && fs.mode == .ann
-      | .kw v _ => scalarDefault v && kwAllowed fs.ty && (truthy v || defaultOk O (denote fs.ty) v))
+      | .kw v _ => scalarDefault v && kwAllowed fs.ty && (truthy v || defaultOk O (denote fs.ty) v)
+      | .eqF p _ => fs.mode == .ann && !(onceSp tm fs.ty && truthy p)
+      | .kwF _ _ => kwAllowed fs.ty)
 
 /-- the expression only uses documented forms: `items=` is given fields, `None` only appears as
     one alternative of `Union` / `AnyOf` / `|` -/
@@ -221,7 +236,9 @@ def documentedField (fs : FieldSp) : Bool :=
   && (match fs.dflt with
       | .none => true
       | .eq v _ => eqDefault v && fs.mode == .ann
-      | .kw v _ => scalarDefault v && kwAllowed fs.ty)
+      | .kw v _ => scalarDefault v && kwAllowed fs.ty
+      | .eqF _ _ => fs.mode == .ann
+      | .kwF _ _ => kwAllowed fs.ty)
 
 /-- two class bodies declaring the same fields, each in any of its spellings -/
 inductive ClassSame : List FieldSp → List FieldSp → Prop where
